@@ -285,11 +285,16 @@ def plan(tier, seed):
     nc = tier_value(tier, 160, 8000)
     cs = tier_value(tier, 4, 8)
     specs += [dict(kind='comm', first=i * (nc // cs), count=nc // cs, budget_s=tier_value(tier, 40, 300)) for i in range(cs)]
+    # the repository's own tests as one more workload: every fill_triu call they make must return the symmetric completion
+    specs.append(dict(kind='repo_tests', files=tier_value(tier, ['tests/distributed_test.py', 'tests/layers/layers_test.py'], ['tests']), budget_s=900))
     return specs
 
 
 def run_shard(spec, res):
     dl = Deadline(spec['budget_s'])
+    if spec['kind'] == 'repo_tests':
+        from kverif import repotests
+        return repotests.run('C14', spec['files'], res)
     if spec['kind'] == 'roundtrip':
         for n in sorted(spec['ns'], reverse=True):
             if dl.over():
@@ -312,6 +317,9 @@ def run_shard(spec, res):
 def replay(case, res):
     import os
     seed = int(os.environ.get('VERIF_SEED', '0'))
+    if 'repo_tests' in case:
+        from kverif import repotests
+        return repotests.run('C14', case['repo_tests'], res)
     if 'real_idx' in case:
         real_comm_case(seed, res, case['real_idx'])
     elif 'idx' in case:
